@@ -14,6 +14,11 @@ NOTE = ('Trusted: clang 14 front end, the extractor tools/theo_facts.cc, the Pyt
         'executed.')
 
 CLAIMS = {
+    'C01': ('ISA conformance of handler effect summaries; exhaustiveness; encoder/decoder agreement; lowering obligations as dominance chains with operand identity; typestate of temporaries',
+            'PARTIAL. Decides the named compositional ingredients (each handler vs its ISA contract, every construct lowered to the right '
+            'instruction skeleton with the right operand roles and order, union members agree between encoder and decoders, temporaries '
+            'not used after release, zeroed frames). These are necessary conditions of semantic correctness for all programs; the '
+            'end-to-end equality of results, general register liveness and the step-budget sentence are not decided.', '4/C01'),
     'C18': ('effect/purity analysis: static-storage inventory with mutation verdicts, external-callee classification, pointer-keyed container and address-comparison lint, ownership-by-value and state-locality rules',
             'Decides absence of shared mutable state and of nondeterminism sources over every library unit, which implies determinism '
             'and race freedom for all call orders and interleavings (assuming a thread-safe allocator/libstdc++). It is a whole-program '
